@@ -92,7 +92,11 @@ def run(ctx):
                                 if d.get("d") == lr.get("d") and "init" in d:
                                     s = show(d["init"])
                                     if "get_dirname" in s and "get_file" in s:
-                                        kind = "includer-dir"
+                                        # the directory the including file really lives in: dirname of CPPFile::_filename
+                                        # (the located path), not of _filename_as_referenced (its spelling in the #include)
+                                        dn = [c for c in walk(d["init"]) if c.get("k") == "call" and callee_short(c) == "get_dirname" and "this" in c]
+                                        flds = {(field_of(c["this"]) or "?").split("::")[-1] for c in dn}
+                                        kind = "includer-dir" if flds == {"_filename"} else "includer-dir-of-%s" % "/".join(sorted(flds))
                                     elif "_quote_include_path" in s and "get_directory" in s:
                                         kind = "quote-path"
                                     elif "_angle_include_path" in s:
